@@ -34,18 +34,24 @@ Depth == IF "VERIF_DEPTH" \in DOMAIN IOEnv THEN atoi(IOEnv.VERIF_DEPTH) ELSE 6
 VARIABLES gone, pre   \* pre: abstract state before the last operation (edge cover is per SOURCE state)
 Mode == IF "VERIF_NODEMODE" \in DOMAIN IOEnv THEN IOEnv.VERIF_NODEMODE ELSE "all"
 
-NextDel == \/ \E f \in File : Upload(f, FALSE) \/ Download(f, "all") \/ Delete(f) \/ Read(f)
+NextDel == \/ \E f \in File : Upload(f, FALSE) \/ Download(f, "all", "none") \/ Delete(f) \/ Read(f)
            \/ \E cap \in {1, 6} : Collect(cap)
 NextPin == \/ \E f \in File, p \in BOOLEAN : Upload(f, p)
-           \/ \E f \in File : Download(f, "all") \/ Delete(f)
+           \/ \E f \in File : Download(f, "all", "none") \/ Delete(f)
            \/ \E f \in File, via \in {"api", "svc"} : Pin(f, via) \/ Unpin(f, via)
 
-NextPin2 == \/ \E f \in File : Upload(f, FALSE) \/ Download(f, "all")
+NextPin2 == \/ \E f \in File : Upload(f, FALSE) \/ Download(f, "all", "none")
             \/ \E f \in File, via \in {"api", "svc"} : Pin(f, via) \/ Unpin(f, via)
+
+\* partial holders: downloads from a source that lacks one data chunk, then local reads / single-chunk reads / retries
+NextPart == \/ \E f \in File, miss \in MissKinds : Download(f, "all", miss)
+            \/ \E f \in File : Download(f, "second", "data0") \/ Read(f) \/ Delete(f)
+            \/ \E f \in File, k \in {"inter", "data0"} : TouchChunk(f, k)
+            \/ Restart
 
 GInit == Init /\ hist = <<>> /\ gone = {} /\ pre = <<>>
 GNext == /\ Len(hist) < Depth
-         /\ CASE Mode = "del" -> NextDel [] Mode = "pin" -> NextPin [] Mode = "pin2" -> NextPin2 [] OTHER -> Next
+         /\ CASE Mode = "del" -> NextDel [] Mode = "pin" -> NextPin [] Mode = "pin2" -> NextPin2 [] Mode = "part" -> NextPart [] OTHER -> Next
          /\ hist' = Append(hist, last')
          /\ gone' = gone \cup (known \ known')
          /\ pre' = <<data, up, pin, acct, known, rootpin, gone>>
